@@ -612,7 +612,7 @@ func main() {
 	dir := flag.String("dir", "/repo", "module directory")
 	overlayRoot := flag.String("overlay", "", "directory whose tree is overlaid on -dir")
 	out := flag.String("out", "ir.json", "output file")
-	allow := flag.String("allow", "github.com/agglayer/aggkit,github.com/golang-collections/collections/stack,slices,maps,cmp", "comma-separated package path prefixes whose function bodies are dumped")
+	allow := flag.String("allow", "github.com/agglayer/aggkit,github.com/golang-collections/collections/stack,slices,maps,cmp,math/bits", "comma-separated package path prefixes whose function bodies are dumped")
 	tags := flag.String("tags", "", "build tags")
 	flag.Parse()
 	allowPfx = strings.Split(*allow, ",")
